@@ -1979,7 +1979,7 @@ class Circuit(AbstractCircuit):
         pass
 
     def __setitem__(self, key, value):
-        if isinstance(key, int) and not isinstance(value, Moment):
+        if not isinstance(key, slice) and not isinstance(value, Moment):
             raise TypeError('Can only assign Moments into Circuits.')
 
         if isinstance(key, slice):
